@@ -50,7 +50,7 @@ Inductive sexpr :=
 
 Inductive stmt :=
 | SInsert (t : nat) (rows : list row)
-| SInsertSelect (dst src : nat)
+| SInsertSelect (dst src : nat) (sel : list row)   (* sel = what SELECT * FROM src returns (used by the non-bulk path only) *)
 | SUpdate (t : nat) (asg : list (nat * sexpr)) (w : option pred)
 | SDelete (t : nat) (w : option pred)
 | STruncate (t : nat)
@@ -152,12 +152,15 @@ Fixpoint bulk_loop (t : table) (seen_pk : list key) (seen_uq : list (list key)) 
         end
   end.
 
-Definition do_insert_select (dst : table) (same : bool) (src_sch : schema) (src_rows : list row)
+(** The bulk path reads the source table's rows directly ([src_table.scan()]).  The fallback
+    executes the SELECT through the query executor, whose row order is its own business (it is
+    not always the storage order): [sel] stands for whatever it returned. *)
+Definition do_insert_select (dst : table) (same : bool) (src_sch : schema) (src_rows sel : list row)
   : table * result * list row :=
   if negb same && bulk_compatible (t_sch dst) src_sch then
     bulk_loop dst [] (map (fun _ => []) (s_uniqs (t_sch dst))) src_rows 0 []
   else if negb (s_ncols src_sch =? s_ncols (t_sch dst)) then (dst, RErrOther, [])
-  else do_insert_values dst src_rows.
+  else do_insert_values dst sel.
 
 (* ------------------------------------------------------------------------------------ *)
 (** * Row selection shared by UPDATE (row_selector.rs) and DELETE (executor.rs) *)
@@ -411,10 +414,10 @@ Definition step (d : db) (s : stmt) : db * result :=
           let '(t', r, ins) := do_insert_values t rows in
           ({| d_tabs := upd_nth ti (fun _ => t') (d_tabs d); d_txn := record_inserts (d_txn d) ti ins |}, r)
       end
-  | SInsertSelect dst src =>
+  | SInsertSelect dst src sel =>
       match nth_error (d_tabs d) dst, nth_error (d_tabs d) src with
       | Some td, Some ts =>
-          let '(t', r, ins) := do_insert_select td (dst =? src) (t_sch ts) (t_rows ts) in
+          let '(t', r, ins) := do_insert_select td (dst =? src) (t_sch ts) (t_rows ts) sel in
           ({| d_tabs := upd_nth dst (fun _ => t') (d_tabs d); d_txn := record_inserts (d_txn d) dst ins |}, r)
       | _, _ => (d, RErrOther)
       end
